@@ -94,8 +94,16 @@ def stage_ok(entry, stage):
     return any(s["stage"] == need and s["outcome"] == "ok" for s in entry["stages"])
 
 
-def run_walker(art, workdir, names, stage):
+def run_walker(art, workdir, names, stage, chunk=500):
     """-> dict name -> list of reasons (empty list = well-typed), plus TLC stats"""
+    if len(names) > chunk:
+        bad, tot = {}, {"distinct": 0, "states": 0, "wall": 0}
+        for i in range(0, len(names), chunk):
+            b, r = run_walker(art, os.path.join(workdir, "wpart%d" % (i // chunk)), names[i:i + chunk], stage, chunk)
+            bad.update(b)
+            for k_ in tot:
+                tot[k_] += r[k_] or 0
+        return bad, tot
     module, mode = STAGE_MODE[stage]
     progs = [{"name": nm, "mode": mode, "prog": equiv.load_stage(art, nm, stage)} for nm in names]
     if not progs:
